@@ -135,7 +135,7 @@ class Report:
     def count_clause(self, name: str, n: int = 1) -> None:
         self.clause_counts[name] = self.clause_counts.get(name, 0) + n
 
-    def finish(self) -> int:
+    def finish(self, write_evidence: bool = True) -> int:
         """Writes the evidence file, prints VIOLATION / KNOWN-FINDING lines and
         returns the exit code."""
         os.makedirs(EVIDENCE, exist_ok=True)
@@ -168,8 +168,9 @@ class Report:
             "wall_s": round(time.time() - self.t0, 2),
             "violations": len(seen),
         }
-        with open(os.path.join(EVIDENCE, f"{self.prop}.json"), "w") as f:
-            json.dump(ev, f, indent=1, sort_keys=True)
+        if write_evidence:
+            with open(os.path.join(EVIDENCE, f"{self.prop}.json"), "w") as f:
+                json.dump(ev, f, indent=1, sort_keys=True)
         print(f"{self.prop} [{self.tier}] states={self.states} traces={self.traces} "
               f"nontrivial={len(self.nontrivial)} violations={len(seen)} "
               f"known={sum(self.known_matched.values())} wall={ev['wall_s']}s")
